@@ -82,3 +82,8 @@ Theorem C05_matmul_diag_special_case_agrees (F : fieldType) sq lt n (x y : vec F
 Proof. exact: mul_diag_diag_agrees. Qed.
 Print Assumptions C05_matmul_diag_special_case.
 Print Assumptions C05_matmul_diag_special_case_agrees.
+(* diagonal @ lower-triangular in the literal model (no scan is entered; the rows of p are scaled) *)
+Theorem C05_matmul_diag_lower_literal (F : fieldType) sq lt n (x d : vec F) (l : tri F) (C : qsm F) :
+  qsm_mul (fops sq lt) (Diag n x) (Lower d l) = Some C -> den n C = den n (Diag n x) *m den n (Lower d l).
+Proof. exact: mul_diag_lower_sound. Qed.
+Print Assumptions C05_matmul_diag_lower_literal.
